@@ -331,6 +331,36 @@ def f11(ctx, rid):
     c07.h6(ctx, rid)
 
 
+def f12(ctx, rid):
+    """the blob size an index file is stamped with when it is dumped and the size it is validated against when it is loaded in
+    the same session are the same quantity (today: the size counter of the blob file). After a failed append the counter and
+    the length on disk differ; if only one side moved to another notion of size, every later load of that blob's index would
+    be rejected, the regeneration scan would run past the data and the acknowledged records of the blob would be lost for
+    the session"""
+    prog = ctx.prog
+    sides = {'dump': [], 'load': []}
+    for f in prog.fns.values():
+        if f.file != 'src/blob/core.rs':
+            continue
+        for c in f.calls:
+            if c.bb in f.reachable() and c.name in sides and 'IndexTrait' in c.path and len(c.args) > 1:
+                sites = []
+                lv = core.scalar_leaves(prog, f, c.args[1], depth=4, sites=sites)
+                sides[c.name].append((f, c, frozenset(lv), frozenset(n for (n, _, _) in sites)))
+    if not sides['dump'] or not sides['load']:
+        raise core.AnchorLost('Blob -> IndexTrait::dump/load call sites: %d/%d' % (len(sides['dump']), len(sides['load'])))
+    ref = sides['load'][0]
+    for kind in ('load', 'dump'):
+        for (f, c, lv, st) in sides[kind]:
+            key = 'index-size-one-notion|%s|%s' % (prog.fns[f.id].root, kind)
+            if (lv, st) == (ref[2], ref[3]):
+                ctx.ok(rid, key, c.where(), 'size operand computed from %s' % sorted(lv))
+            else:
+                ctx.bad(rid, key, c.where(), 'the blob size given to the index %s is computed from %s, the one the index is loaded and validated '
+                        'against from %s: after any divergence of the two (failed append) the index of a closed blob is rejected in-session '
+                        'and its records are lost' % (kind, sorted('%s %s' % x for x in lv if x[0] in ('call', 'field')), sorted('%s %s' % x for x in ref[2] if x[0] in ('call', 'field'))))
+
+
 RULES = [
     Rule('C11.X3', 'no err-exit is reachable between a move-out of shared state and its hand-back', x3, 4),
     Rule('C11.L1', 'an error while handling a worker message never ends the maintenance loop (C13.L1 instances)', l1, 4),
@@ -342,5 +372,6 @@ RULES = [
     Rule('C11.F9', 'no file of the io layer is opened with O_APPEND (positional writes at reserved offsets must be honoured)', f9, 1),
     Rule('C11.F10', 'a stale index left behind by a failed dump is rejected at the next start (C03.I2 instances)', f10, 2),
     Rule('C11.F11', 'blob ids in use in the work dir or the quarantine dir are never handed out again (C07.H6 instances)', f11, 3),
+    Rule('C11.F12', 'an index is dumped with the same notion of blob size it is later loaded and validated against', f12, 2),
     Rule('C11.F6', 'an index file cut short by a failed dump is never trusted: written flag set in a second phase, extent checked at open (C03.I8/I5 instances)', f6, 2),
 ]
